@@ -50,7 +50,10 @@ def gen_family_one(name, grammars, with_pest=True, extra_main="", extra_mods=Non
         write_if_changed(os.path.join(d, "src", gid + ".rs"), src)
         mods.append("mod %s;" % gid)
         for r in g["rules"]:
-            if r in g.get("tree_rules", []):
+            if r in g.get("custom", {}):
+                base = "obs!" if pest else "obs_t!"
+                arms.append('        ("%s", "%s") => { let mut v = %s(%s, r#%s, job); if job.has(\'X\') { v["x"] = %s::%s(job); } v }' % (gid, r, base, gid, r, gid, g["custom"][r]))
+            elif r in g.get("tree_rules", []):
                 arms.append('        ("%s", "%s") => obs_tree!(%s, r#%s, job),' % (gid, r, gid, r))
             elif r in g.get("pair_rules", []):
                 arms.append('        ("%s", "%s") => obs_pair!(%s, r#%s, job),' % (gid, r, gid, r))
